@@ -146,8 +146,10 @@ def try_replay(run, o):
     c = o.contract
     ex = run.execs[c.qn]
     try:
-        if c.replay:
+        if driver_for(c, o):
             return custom_replay(run, o, c)
+        if isinstance(c.replay, dict):
+            return False, "no replay driver for this clause; solver output attached", None
         if not all(value_level(s) for s in c.params.values()):
             return False, "no generic replay for heap-shaped inputs; solver output attached", None
         m = get_model(o)
@@ -273,8 +275,17 @@ def check_concrete(run, ex, c, args, globs, r, logical=None):
     return True, "contract holds on the concrete run (%s)" % rr
 
 
+def driver_for(c, o):
+    "contract.replay is a driver name (all clauses of the contract) or {clause label: driver name} (only those clauses)"
+    if not c.replay:
+        return None
+    if isinstance(c.replay, dict):
+        return c.replay.get(o.name.split(":", 1)[1].split("@")[0]) if ":" in o.name else None
+    return c.replay
+
+
 def custom_replay(run, o, c):
-    m = get_model(o)
+    m = get_model(o) if getattr(o, "result", None) == "sat" else None
     model = {}
     if m is not None:
         for d in m.decls():
@@ -284,11 +295,12 @@ def custom_replay(run, o, c):
                     model[d.name()] = v.as_long() if z3.is_int_value(v) else v.as_string() if z3.is_string_value(v) else str(v)
                 except Exception:
                     pass
-    k = dict(witness=dict(driver=c.replay, args=dict(model=model, obligation=o.name)))
+    drv = driver_for(c, o)
+    k = dict(witness=dict(driver=drv, args=dict(model=model, obligation=o.name)))
     still, detail = run_witness(k, repo_root=run.repo.root)
     if still is None:
         return False, "custom replay failed: " + detail, None
-    return bool(still), detail, dict(driver=c.replay)
+    return bool(still), detail, dict(driver=drv)
 
 
 def run_witness(k, repo_root=None):
